@@ -47,7 +47,9 @@ TwinClause ==
   LET e == Traces[tid].ev[pos]
   IN IF e.tw[1] # -9 /\ (((e.out = 0) # (e.tw[1] = 0)) \/ (e.out = 0 /\ e.tw[1] = 0 /\ (e.e # e.tw[2] \/ e.keys # e.tw[3])))
      THEN {"C17.flavours-differ"} ELSE {}
-Mark(names) == viol \cup {[i |-> pos, c |-> nm] : nm \in names \cup TwinClause}
+\* C09: whatever the operation, it returned or raised (out = 6: it had to be ended by the harness's time-out)
+HangClause == IF Traces[tid].ev[pos].out = 6 THEN {"C09.hang"} ELSE {}
+Mark(names) == viol \cup {[i |-> pos, c |-> nm] : nm \in names \cup TwinClause \cup HangClause}
 
 \* observation of an execution of selection S with arguments args on instance i
 \* returns the set of violated clauses; `fullrun` = the execution is expected to run S from scratch
@@ -152,7 +154,9 @@ Step ==
             \* executor.setup(): the setup part of the executor's own selection (dag.py: DAGExecution.setup)
             LET ii == ex[e.x].i
                 vv == val[ii]
-                S == ex[e.x].S \cap SetupNodes(D)
+                \* an executor built with cache_deps_of has no target / exclude selection of its own: its setup() is the
+                \* setup() of the whole DAG (what the code does and its comment says; no listed property asks for less)
+                S == IF Given(ex[e.x].dep) THEN SetupNodes(D) ELSE ex[e.x].S \cap SetupNodes(D)
                 ok == e.out = 0
                 vnew == IF ok THEN After(D, e, S, vv) ELSE vv
                 bad == Clauses({
